@@ -100,7 +100,7 @@ def native_shapes():
     from matrix_functions_types import EigenConfig
     for shp in ((2,), (3, 2), (2, 2, 2), (1, 2), (4, 1)):
         for diag in (False, True):
-            for cfg in (EigenConfig(), EigenConfig(enhance_stability=True)):
+            for cfg in (EigenConfig(), EigenConfig(enhance_stability=True, exponent_multiplier=1.82)):
                 try:
                     M.matrix_inverse_root(torch.ones(shp), Fraction(2), root_inv_config=cfg, epsilon=1e-3, is_diagonal=diag)
                     return f"shape {shp} accepted (is_diagonal={diag})"
